@@ -184,7 +184,7 @@ def extra_cases(rng, tier):
                           ("fft.fftshift", {}, x24), ("fft.fftshift", {"axes": 1}, x24), ("fft.ifftshift", {"axes": (0,)}, x24)):
         mod_, fn_ = name.split(".")
         add(name, "options %s shape %s" % (kws, xs.shape), (lambda m, z, fn_=fn_, kws=kws: getattr(m.fft, fn_)(z, **kws)), [xs], [0], False)
-    add("linspace", "both ends traced, endpoint=False", (lambda m, a, b: m.linspace(a, b, 4, endpoint=False)), [1.0, 3.0], [0, 1], True)
+    add("linspace", "both ends traced, endpoint=False", (lambda m, a, b: m.linspace(a, b, 4, endpoint=False)), [1.0, 3.0], [0, 1], False)
     add("linspace", "array ends", (lambda m, a, b: m.linspace(a, b, 3)), [R.iarr(rng, (2,)), R.iarr(rng, (2,))], [0, 1], True)
     add("gradient", "1-D edge_order=2", (lambda m, z: m.gradient(z, edge_order=2)), [R.iarr(rng, (5,))], [0], True, modes=("rev",))
     for nn in (2, 3):
@@ -205,6 +205,22 @@ def extra_cases(rng, tier):
             [spd_stack2(k_, 3), R.distinct(rng, (3,))], [0, 1], False)
     for nn, sh in ((2, (1,)), (3, (2,)), (2, (2,)), (2, (1, 3)), (4, (3,))):
         add("diff", "n=%d on shape %s (more differences than elements)" % (nn, sh), (lambda m, z, nn=nn: m.diff(z, n=nn, axis=0)), [R.iarr(rng, sh)], [0], False, modes=("rev",))
+    # ---- (0i) more option spellings ----
+    la, lb = R.iarr(rng, (2,)), R.iarr(rng, (2,))
+    for kw in ({"axis": 1}, {"axis": -1}, {"axis": 0}, {"endpoint": False, "axis": 1}, {"endpoint": False}):
+        add("linspace", "array ends %s" % kw, (lambda m, a, b, kw=kw: m.linspace(a, b, 3, **kw)), [la, lb], [0, 1], "endpoint" not in kw)
+    add("linspace", "matrix ends axis=1", (lambda m, a, b: m.linspace(a, b, 3, axis=1)), [R.iarr(rng, (2, 2)), R.iarr(rng, (2, 2))], [0, 1], True)
+    def symm(n):
+        a_ = R.distinct(rng, (n, n))
+        return a_ @ a_.T + n * onp.eye(n)
+    for uplo in ("L", "U", "l", "u"):
+        # only the named triangle is read: perturbing the matrix asymmetrically tells the triangles apart
+        add("linalg.eigh", "UPLO=%r eigenvalues" % uplo, (lambda m, a, uplo=uplo: m.linalg.eigh(a, uplo)[0]), [symm(3)], [0], False, modes=("rev",))
+        add("linalg.eigh", "UPLO=%r keyword, eigenvalues" % uplo, (lambda m, a, uplo=uplo: m.linalg.eigh(a, UPLO=uplo)[0]), [symm(3)], [0], False, modes=("rev",))
+    x44 = R.distinct(rng, (4, 4))
+    for nrm in (None, "backward", "ortho", "forward"):
+        for fn_ in ("fft", "ifft", "fft2", "ifft2", "fftn", "ifftn", "rfft", "rfft2", "rfftn", "irfft", "irfft2", "irfftn"):
+            add("fft." + fn_, "norm=%r" % (nrm,), (lambda m, z, fn_=fn_, nrm=nrm: getattr(m.fft, fn_)(z, norm=nrm)), [x44], [0], False)
     # ---- (a) the same array object in two argument positions: the derivative is the sum over both positions ----
     v4 = R.distinct(rng, (4,))
     p4 = R.positive(rng, (4,))
